@@ -41,7 +41,14 @@ def ctx(seed, log):
         log.append(("dflt", s))
         return s or "n/a"
 
+    counter = []
+
+    def nxt():
+        counter.append(1)
+        return len(counter)
+
     return {
+        "nxt": nxt,
         "label_sc": runtime.supports_caller(label),
         "label_plain": label,
         "label_sc2": runtime.supports_caller(label_body),
@@ -130,6 +137,20 @@ def cases(seed=0):
                 )
             for pname, (src, exp) in places.items():
                 out.append({"group": "empty", "name": "empty:%s:%s:%s" % (pname, bname, flt.replace(", ", "+")), "src": src, "exp": exp})
+    # ---- attribute order of a <%ns:def> call: keyword arguments are passed, and their values evaluated, in the order written
+    KW = '<%def name="kw(**kw)">{${"|".join("%s=%s" % (k, v) for k, v in kw.items())}}</%def>'
+    TWO = '<%def name="two(a, b, c=\'-\')">{a=${a},b=${b},c=${c}}</%def>'
+    for form in ("tself", "tlocal"):
+        ns = "self" if form == "tself" else "local"
+        shapes = {
+            "kwargs-order": (KW + "[<%" + ns + ':kw zeta="1" alpha="2" mid="3"/>]', "[{zeta=1|alpha=2|mid=3}]"),
+            "kwargs-order-with-content": (KW + "[<%" + ns + ':kw zeta="1" alpha="2">x</%' + ns + ":kw>]", "[{zeta=1|alpha=2}]"),
+            "evaluation-order": (TWO + "[<%" + ns + ':two b="${nxt()}" a="${nxt()}"/>]', "[{a=2,b=1,c=-}]"),
+            "evaluation-order-3": (TWO + "[<%" + ns + ':two c="${nxt()}" b="${nxt()}" a="${nxt()}"/>]', "[{a=3,b=2,c=1}]"),
+            "evaluation-order-mixed": (TWO + "[<%" + ns + ':two b="x${str(nxt())}" a="${str(nxt())}y"/>]', "[{a=2y,b=x1,c=-}]"),
+        }
+        for k, (src, exp) in shapes.items():
+            out.append({"group": "attr-order", "name": "attr-order:%s:%s" % (k, form), "src": src, "exp": exp})
     # ---- nscall
     W = '<%def name="w()">(${caller.body()})</%def>'
     W2 = '<%def name="w2()">(${caller.body()}${caller.body()})</%def>'
